@@ -198,6 +198,12 @@ fn roundtrip_case(src: &mut Src, ctx: &mut Ctx) -> Result<(), String> {
     let mut want: Vec<MCell> = m.cells.clone();
     got.sort_by(|a, b| a.name.cmp(&b.name));
     want.sort_by(|a, b| a.name.cmp(&b.name));
+    // the statement lists what is preserved, not in which order: compare the lists as multisets
+    for c in got.iter_mut().chain(want.iter_mut()) {
+        c.insts.sort_by(|a, b| format!("{:?}", a).cmp(&format!("{:?}", b)));
+        c.assigns.sort();
+        c.cuts.sort();
+    }
     if got != want {
         let i = got.iter().zip(want.iter()).position(|(a, b)| a != b).unwrap_or(0);
         return Err(format!("library changed through the protobuf schema.\n exported {:?}\n came back {:?}", want.get(i), got.get(i)));
